@@ -601,7 +601,34 @@ impl<TActor: ThreadLocalActor> ThreadLocalActorRuntime<TActor> {
         #[cfg(feature = "message_span_propogation")]
         let current_span_when_message_was_sent = msg.span.take();
 
+        // A serialized payload arrives from a remote peer: one that does not decode (or whose
+        // decoder panics) is dropped instead of terminating the actor, as in the `Send` runtime.
+        #[cfg(feature = "cluster")]
+        let typed_msg = if msg.serialized_msg.is_some() {
+            match std::panic::catch_unwind(AssertUnwindSafe(|| TActor::Msg::from_boxed(msg))) {
+                Ok(Ok(message)) => message,
+                Ok(Err(_)) => {
+                    tracing::debug!(
+                        "Dropping serialized message that actor {:?} could not decode",
+                        myself.get_id()
+                    );
+                    return Ok(());
+                }
+                Err(_) => {
+                    tracing::debug!(
+                        "Dropping serialized message whose decoder panicked for actor {:?}",
+                        myself.get_id()
+                    );
+                    return Ok(());
+                }
+            }
+        } else {
+            // An error here will bubble up to terminate the actor
+            TActor::Msg::from_boxed(msg)?
+        };
+
         // An error here will bubble up to terminate the actor
+        #[cfg(not(feature = "cluster"))]
         let typed_msg = TActor::Msg::from_boxed(msg)?;
 
         #[cfg(feature = "message_span_propogation")]
